@@ -292,7 +292,7 @@ def do_step(root: MessageBase, step: dict, group: str, res: Result, trace: dict)
     if verdict == "in" and raised is None and j["bnd"]:
         res.shape("bnd", fi.kind, fi.code if fi.code else _lenclass(fi.n), form, tuple(sorted(j["bnd"])))
         res.count("nontrivial:accepted-boundary")
-        res.sample({"case": desc, "verdict": "accepted"}, limit=5)
+        res.sample({"case": desc, "verdict": "accepted"}, limit=2)
 
 
 def run_assign_case(trace: dict, res: Result):
@@ -579,13 +579,9 @@ def run(ctx: RunContext) -> int:
     return conclude(ctx, res, RULE, ASSUME, t0)
 
 
-def replay(ctx: RunContext, body: dict) -> int:
+def replay_trace(trace: dict) -> None:
+    """Re-execute one concrete case without Hypothesis; raises Violation if the property still fails."""
     try:
-        run_case(body["trace"], Result())
-    except Violation as v:
-        print(f"VIOLATION property=C09 replay={ctx.replay}\n  key={v.key}\n  what={v.what}")
-        return 1
+        run_case(trace, Result())
     finally:
         V._VALIDATION_ENABLED.set(True)
-    print("replay: property held")
-    return 0
